@@ -1,14 +1,18 @@
 import MsiProofs.Props.C19
 import MsiProofs.Lemmas.StmtRead
+import MsiProofs.Lemmas.StmtLex
 import MsiModel.QueryFmt
 /-
 C19 for statements.  The words and signs of a printed `UPDATE`, `DELETE` or `INSERT`, in order,
 determine the statement: a reader over those tokens returns the table, every assignment with its
 value in order (a column assigned twice stays assigned twice, the later one last), every row of
 values, and the condition as the same expression tree (read by the expression reader of C19).
-What is NOT proved here: that the printed TEXT splits into exactly these tokens (lexing of
-keywords, commas and quoted values); that part is tied by the reference reader of the harness on
-the real output.  `SELECT` with joins: tied by correspondence and the reference reader only.
+From characters (`StmtLex`): a reader of the printed TEXT - keywords with their blanks, identifiers,
+literals cut off at `,`, blank or `)` (or at the closing quote) and handed to the expression lexer,
+the condition after ` WHERE ` read by `readText` of C19 - gives back the statement that was printed
+(`update_text_reads`, `delete_text_reads`, `insert_text_reads`), for identifier names, literals
+without escapes and conditions in the domain of the expression theorem.
+`SELECT` with joins: tied by correspondence and the reference reader of the harness only.
 -/
 namespace MsiProofs.C19
 open MsiModel MsiProofs.StmtRead
@@ -33,5 +37,49 @@ theorem demo_update_reads :
     some ("Tab".toList, [("A".toList, .int 0), ("S".toList, .str "none".toList), ("A".toList, .int 7)],
       some (.bin .lt (.col "K".toList) (.lit (.int 5)))) :=
   readUpdate_toks _ _ (by simp) _
+
+
+/-! ### from characters -/
+open MsiProofs.StmtLex MsiProofs.ExprLex
+
+/-- **a printed UPDATE, read from its characters, is the statement that was printed**: the table,
+every assignment with its value in order, and the condition as the same expression tree -/
+theorem update_text_reads (t : List Char) (ups : List (List Char × Value)) (cond : Option Ast)
+    (ht : GoodIdent t) (hne : ups ≠ []) (hid : ∀ p ∈ ups, GoodIdent p.1) (hg : GoodCond cond)
+    (s : List Char) (h : QueryFmt.fmtUpdate t ups cond = some s) :
+    readUpdateText s = some (t, ups, cond) :=
+  readUpdateText_fmt t ups cond (goodIdent_idChars ht) hne (fun p hp => goodIdent_idChars (hid p hp)) hg s h
+
+theorem delete_text_reads (t : List Char) (cond : Option Ast) (ht : GoodIdent t) (hg : GoodCond cond)
+    (s : List Char) (h : QueryFmt.fmtDelete t cond = some s) : readDeleteText s = some (t, cond) :=
+  readDeleteText_fmt t cond (goodIdent_idChars ht) hg s h
+
+theorem insert_text_reads (t : List Char) (rows : List (List Value)) (ht : GoodIdent t)
+    (s : List Char) (h : QueryFmt.fmtInsert t rows = some s) : readInsertText s = some (t, rows) :=
+  readInsertText_fmt t rows (goodIdent_idChars ht) s h
+
+/-- end to end for an UPDATE whose condition is built through the API over identifier columns -/
+theorem printed_update_means_same (t : List Char) (ups : List (List Char × Value)) (e : Ast)
+    (ht : GoodIdent t) (hne : ups ≠ []) (hid : ∀ p ∈ ups, GoodIdent p.1)
+    (hc : ∀ n ∈ e.columns, GoodIdent n) (s : List Char)
+    (h : QueryFmt.fmtUpdate t ups (some e.build) = some s) :
+    readUpdateText s = some (t, ups, some e.build) :=
+  update_text_reads t ups (some e.build) ht hne hid (good_build e hc) s h
+
+/-- the literal cut is needed where it is: a quoted value may hold `, ` and ` WHERE ` itself -/
+theorem demo_update_text_reads :
+    readUpdateText "UPDATE Tab SET A = 0, S = \"x, y WHERE z\", A = -7 WHERE K < 5".toList =
+    some ("Tab".toList, [("A".toList, .int 0), ("S".toList, .str "x, y WHERE z".toList), ("A".toList, .int (-7))],
+      some (.bin .lt (.col "K".toList) (.lit (.int 5)))) := by decide +kernel
+
+theorem demo_insert_text_reads :
+    readInsertText "INSERT INTO Tab VALUES (1, \"a)\", NULL), (), (-2147483648)".toList =
+    some ("Tab".toList, [[.int 1, .str "a)".toList, .null], [], [.int (-2147483648)]]) := by decide +kernel
+
+theorem demo_delete_text_reads :
+    readDeleteText "DELETE FROM Tab".toList = some ("Tab".toList, none) ∧
+    readDeleteText "DELETE FROM Tab WHERE NOT (A = 1 OR B = 2)".toList =
+      some ("Tab".toList, some (.un .boolNot (.or (.bin .eq (.col "A".toList) (.lit (.int 1))) (.bin .eq (.col "B".toList) (.lit (.int 2)))))) := by
+  decide +kernel
 
 end MsiProofs.C19
